@@ -710,4 +710,193 @@ theorem StackInv.popUpTo {s ts} (inv : StackInv s ts) (name : Bytes) :
           rw [List.drop_append_of_le_length (by simp; omega)]
         rw [this] at h0
         exact h0
+/-! ## the VM run keeps the invariant -/
+
+theorem keyCount_eq_filter (name : Bytes) (sibs : List Bytes) :
+    keyCount (asciiLowerBytes name) sibs = (sibs.filter fun n => localNameEq n name).length := by
+  simp [keyCount, List.countP_eq_length_filter, localNameEq, eqIgnoreAsciiCase]
+
+/-- `build_state` right after `add_child` returns the 1-based sibling index and (when typed
+    counters are enabled) the 1-based index among same-type siblings. -/
+theorem StackInv.buildState_addChild {s ts} (inv : StackInv s ts) (name : Bytes) :
+    ((s.addChild name).buildState name).cumulative = ts.siblingsSoFar.length + 1 ∧
+    (s.typedChildCounters.isSome = true →
+      ((s.addChild name).buildState name).typed =
+        some ((ts.siblingsSoFar.filter fun n => localNameEq n name).length + 1)) := by
+  have inv' := inv.addChild name
+  have hlen' := inv'.length_eq
+  obtain ⟨names, cum, root, _, _, typed⟩ := inv'
+  unfold Stack.buildState
+  unfold TreeState.withChild at names cum root typed hlen'
+  unfold TreeState.siblingsSoFar
+  cases hopen : ts.open with
+  | nil =>
+    simp only [hopen] at names cum root typed hlen'
+    have hitems : (s.addChild name).items = [] := List.eq_nil_of_length_eq_zero (by simpa using hlen')
+    constructor
+    · simp [hitems, root]
+    · intro hsome
+      cases htc : (s.addChild name).typedChildCounters with
+      | none =>
+        simp [Stack.addChild] at htc
+        split at htc <;> simp_all
+      | some m =>
+        have h0 := typed m htc
+        simp only [levelsOf, List.map_nil, List.nil_append] at h0
+        have := h0.get_current (rest := []) name (by rw [keyCount_append_singleton]; simp)
+        simp only [Option.bind_some, hitems, List.length_nil]
+        simpa [keyCount_append_singleton, keyCount_eq_filter] using this
+  | cons o rest =>
+    simp only [hopen] at names cum root typed hlen'
+    rcases List.eq_nil_or_concat (s.addChild name).items with hitems | ⟨l, x, hitems⟩
+    · rw [hitems] at hlen'; simp at hlen'
+    · rw [List.concat_eq_append] at hitems
+      rw [hitems] at cum
+      simp only [List.reverse_append, List.reverse_cons, List.reverse_nil, List.nil_append,
+        List.singleton_append, List.map_cons, List.cons.injEq] at cum
+      constructor
+      · simp [hitems, cum.1]
+      · intro hsome
+        cases htc : (s.addChild name).typedChildCounters with
+        | none =>
+          simp [Stack.addChild] at htc
+          split at htc <;> simp_all
+        | some m =>
+          have h0 := typed m htc
+          simp only [levelsOf, List.map_cons, List.cons_append] at h0
+          have := h0.get_current name (by rw [keyCount_append_singleton]; simp)
+          have hl : (s.addChild name).items.length = (rest.map (·.children) ++ [ts.rootChildren]).length := by
+            simp at hlen' ⊢; omega
+          simp only [Option.bind_some, hl]
+          simpa [keyCount_append_singleton, keyCount_eq_filter] using this
+
+/-- effect of a start tag on the stack, whatever the program -/
+theorem Vm.handleStartTag_stack {vm vm' : Vm} {t : StartTag} {ms}
+    (h : vm.handleStartTag t = .ok (vm', ms)) :
+    vm'.program = vm.program ∧ vm'.enableEsiTags = vm.enableEsiTags ∧
+    ∃ item : StackItem, item.localName = t.name ∧ item.childCounter = 0 ∧
+      vm'.stack = if staysOpen t vm.enableEsiTags then (vm.stack.addChild t.name).pushItem item
+                  else vm.stack.addChild t.name := by
+  rw [Vm.handleStartTag_eq] at h
+  simp only [bind, Except.bind] at h
+  split at h
+  · cases h
+  · rename_i ctx' hc
+    have sf := Vm.execAllWithAttrs_sameFrame _ _ _ _ hc
+    simp only [pure, Except.pure, Except.ok.injEq] at h
+    have h1 := congrArg Prod.fst h
+    simp only at h1
+    subst h1
+    unfold Vm.finish
+    have hw : ctx'.withContent = staysOpen t vm.enableEsiTags := sf.2.2.1
+    refine ⟨?_, ?_, ctx'.stackItem, sf.1, sf.2.2.2, ?_⟩
+    · split <;> rfl
+    · split <;> rfl
+    · rw [hw]; split <;> rfl
+
+theorem StackInv.handleStartTag {vm vm' : Vm} {ts : TreeState} {t : StartTag} {ms}
+    (inv : StackInv vm.stack ts) (h : vm.handleStartTag t = .ok (vm', ms)) :
+    StackInv vm'.stack (ts.startTag t vm.enableEsiTags) := by
+  obtain ⟨_, _, item, hn, hc, hs⟩ := Vm.handleStartTag_stack h
+  rw [hs, startTag_eq]
+  have inv1 := inv.addChild t.name
+  split
+  · exact inv1.pushItem item (ts.elemFor t) hn hc
+  · exact inv1
+
+theorem StackInv.handleEndTag {vm : Vm} {ts : TreeState} (inv : StackInv vm.stack ts) (name : Bytes) :
+    ∃ vm', vm.handleEndTag name = .ok vm' ∧ vm'.program = vm.program ∧
+      vm'.enableEsiTags = vm.enableEsiTags ∧ StackInv vm'.stack (ts.endTag name) := by
+  obtain ⟨s', d, he, inv'⟩ := inv.popUpTo name
+  refine ⟨{ vm with stack := s' }, ?_, rfl, rfl, inv'⟩
+  simp [Vm.handleEndTag, Vm.execForEndTag, he, bind, Except.bind, pure, Except.pure]
+
+theorem StackInv.runAux (esi : Bool) : ∀ (evs : List Event) (vm vm' : Vm) (ts : TreeState) (ord acc res),
+    vm.enableEsiTags = esi → StackInv vm.stack ts → vm.runAux evs ord acc = .ok (vm', res) →
+    vm'.program = vm.program ∧ vm'.enableEsiTags = esi ∧
+      StackInv vm'.stack (evs.foldl (fun s e => s.step esi e) ts) := by
+  intro evs
+  induction evs with
+  | nil =>
+    intro vm vm' ts ord acc res hesi inv h
+    simp [Vm.runAux, pure, Except.pure] at h
+    rw [← h.1]; exact ⟨rfl, hesi, inv⟩
+  | cons e rest ih =>
+    intro vm vm' ts ord acc res hesi inv h
+    cases e with
+    | start t =>
+      simp only [Vm.runAux, bind, Except.bind] at h
+      split at h
+      · cases h
+      · rename_i r hr
+        obtain ⟨vm1, ms⟩ := r
+        have inv1 := inv.handleStartTag hr
+        obtain ⟨hp, he, _⟩ := Vm.handleStartTag_stack hr
+        have := ih vm1 vm' _ _ _ _ (he.trans hesi) inv1 h
+        rw [hesi] at this
+        exact ⟨this.1.trans hp, this.2.1, by simpa [List.foldl_cons, TreeState.step] using this.2.2⟩
+    | end_ n =>
+      obtain ⟨vm1, he1, hp, he, inv1⟩ := inv.handleEndTag n
+      simp only [Vm.runAux, he1, bind, Except.bind] at h
+      have := ih vm1 vm' _ _ _ _ (he.trans hesi) inv1 h
+      exact ⟨this.1.trans hp, this.2.1, by simpa [List.foldl_cons, TreeState.step] using this.2.2⟩
+
+theorem Stack.addChild_typed_isSome (s : Stack) (name : Bytes) :
+    (s.addChild name).typedChildCounters.isSome = s.typedChildCounters.isSome := by
+  unfold Stack.addChild
+  split <;> cases s.typedChildCounters <;> rfl
+
+theorem Stack.pushItem_typed (s : Stack) (item : StackItem) :
+    (s.pushItem item).typedChildCounters = s.typedChildCounters := rfl
+
+theorem Stack.popUpTo_typed_isSome {s s' : Stack} {name d} (h : s.popUpTo name = .ok (s', d)) :
+    s'.typedChildCounters.isSome = s.typedChildCounters.isSome := by
+  unfold Stack.popUpTo at h
+  split at h
+  · simp [pure, Except.pure] at h; rw [← h.1]
+  · split at h
+    · simp [pure, Except.pure] at h; rw [← h.1]
+    · simp only [bind, Except.bind] at h
+      split at h
+      · cases h
+      · simp [pure, Except.pure] at h
+        rw [← h.1]
+        cases s.typedChildCounters <;> rfl
+
+theorem Vm.runAux_typed_isSome : ∀ (evs : List Event) (vm vm' : Vm) (ord acc res),
+    vm.runAux evs ord acc = .ok (vm', res) →
+    vm'.stack.typedChildCounters.isSome = vm.stack.typedChildCounters.isSome := by
+  intro evs
+  induction evs with
+  | nil => intro vm vm' ord acc res h; simp [Vm.runAux, pure, Except.pure] at h; rw [← h.1]
+  | cons e rest ih =>
+    intro vm vm' ord acc res h
+    cases e with
+    | start t =>
+      simp only [Vm.runAux, bind, Except.bind] at h
+      split at h
+      · cases h
+      · rename_i r hr
+        obtain ⟨vm1, ms⟩ := r
+        obtain ⟨_, _, item, _, _, hs⟩ := Vm.handleStartTag_stack hr
+        rw [ih vm1 vm' _ _ _ h, hs]
+        split
+        · rw [Stack.pushItem_typed, Stack.addChild_typed_isSome]
+        · rw [Stack.addChild_typed_isSome]
+    | end_ n =>
+      simp only [Vm.runAux, Vm.handleEndTag, Vm.execForEndTag, bind, Except.bind] at h
+      split at h
+      · cases h
+      · rename_i vm1 h1
+        split at h1
+        · cases h1
+        · rename_i r hr
+          simp [pure, Except.pure] at h1
+          rw [ih vm1 vm' _ _ _ h, ← h1]
+          split at hr
+          · cases hr
+          · rename_i v hv
+            simp [pure, Except.pure] at hr
+            rw [← hr]
+            exact Stack.popUpTo_typed_isSome (d := v.2) hv
 end LolHtml.SelVM
